@@ -190,6 +190,9 @@ fn check_xs(case: &Case) -> Verdict {
         "xs.shift" => "shift_pow_bits",
         "xs.fmt" => "formatting",
         "xs.modpow" => "modpow",
+        "xs.bits" => "bit_updates_neg_inc_dec",
+        "xs.bytes" => "byte_imports",
+        "xs.euclid" => "euclid_ceil_egcd_multiples",
         _ => "prim",
     }))
 }
@@ -242,6 +245,12 @@ impl Property for C16 {
             6 => (z(4), 0u128..48).prop_map(|(a, w)| Case::new("xs.fmt", vec![a, Arg::U(w)])),
             4 => (z(4), gen::nat(2), z(3)).prop_map(|(a, e, m)| Case::new("xs.modpow", vec![a, Arg::N(e), m])),
             4 => z(3).prop_map(|a| Case::new("xs.prim", vec![a])),
+            8 => (prop_oneof![70 => Just(true), 30 => Just(false)], crate::props::c07::bit_nat(5), any::<u8>(), any::<u64>()).prop_map(|(s, a, sel, off)| {
+                let i = crate::props::c07::bit_index(&a, sel % 10, off, 0);
+                Case::new("xs.bits", vec![Arg::Z(s, a), Arg::U(i as u128)])
+            }),
+            3 => proptest::collection::vec(prop_oneof![select(vec![0u8, 0x7f, 0x80, 0xff]), any::<u8>()], 0..24).prop_map(|b| Case::new("xs.bytes", vec![Arg::B(b)])),
+            4 => (z(5), z(3)).prop_map(|(a, b)| Case::new("xs.euclid", vec![a, b])),
         ]
         .boxed()
     }
